@@ -692,6 +692,8 @@ def addressing_program(h, w, zones=8):
             cols = rng(w, False) if (rows is None or ch.flag(0.6)) else None
             order = ch.pick(['rc', 'cr'])
             stmts.append(R.Action('set', [R.Operand('light', R.Str('M'), matrix=('inline', rows, cols, order))]))
+            # the same registers sent by a plain set: the cells must carry exactly that colour
+            stmts.append(R.Action('set', [R.Operand('light', R.Str('A'))]))
         elif what == 'block':
             body = []
             for _ in range(ch.choose(4)):
@@ -716,19 +718,19 @@ def addressing_program(h, w, zones=8):
 # ---------------------------------------------------------------- C19 -------
 PRINT_VALUES = [
     lambda env: N(value=5), lambda env: N(value=2.5), lambda env: N(value=0), lambda env: R.Neg(N(value=3)),
-    lambda env: R.Str('abc'), lambda env: R.Str('two words'), lambda env: R.Reg('hue'), lambda env: R.Reg('kelvin'),
+    lambda env: R.Str('abc'), lambda env: R.Str('two words'), lambda env: R.Str('C:\\new\\table'), lambda env: R.Var('pth'), lambda env: R.Reg('hue'), lambda env: R.Reg('kelvin'),
     lambda env: R.Var('y'), lambda env: R.Var('s'), lambda env: R.Bin('+', R.Var('y'), N(value=1)),
     lambda env: R.Bin('/', R.Var('y'), N(value=2)), lambda env: R.Bin('<', N(value=1), N(value=2)),
     lambda env: R.Bin('and', N(value=1), N(value=0)), lambda env: R.CallE('twice', [N(value=4)]),
 ]
-FIELDS = ['{}', '{:>5}', '{:<4}|', '{hue}', '{y}', '{s}', '{y:03d}', '{{x}}', 'txt ', '\\n', '{kelvin:>6}']
+FIELDS = ['{}', '{:>5}', '{:<4}|', '{hue}', '{y}', '{s}', '{pth}', '{y:03d}', '{{x}}', 'txt ', '\\n', '{kelvin:>6}']
 
 
 def output_program():
     def gen(ch):
         env = Env(ch)
         stmts = [R.SetReg('hue', N(value=120)), R.SetReg('saturation', N(value=50)), R.SetReg('kelvin', N(value=2000)),
-                 R.Assign('y', N(value=7)), R.Assign('s', R.Str('lamp')), R.Assign('x', env.num('val')),
+                 R.Assign('y', N(value=7)), R.Assign('s', R.Str('lamp')), R.Assign('pth', R.Str('a\\nb')), R.Assign('x', env.num('val')),
                  R.RoutineDef('twice', ['v'], [R.Return(R.Bin('*', R.Var('v'), N(value=2)))])]
 
         def out_stmt(last):
